@@ -37,7 +37,8 @@ def canon_sstate(s: dict) -> dict:
     return {"config": sorted(s.get("config") or []), "hist": {k: sorted(v) for k, v in hist.items() if v},
             "status": s["status"], "ctx": dict(ctx), "output": s.get("output", "NONE"),
             "queue": list(s.get("queue") or []), "now": s.get("now", 0), "busy": s.get("busy", 0),
-            "timers": sorted([list(t) for t in (s.get("timers") or [])])}
+            "timers": sorted([list(t) for t in (s.get("timers") or [])]),
+            "svcs": sorted([list(t) for t in (s.get("svcs") or [])])}
 
 
 class SEdge:
@@ -91,16 +92,25 @@ def bfs(edges: List[SEdge]) -> Dict[str, List[SEdge]]:
     return paths
 
 
+def _inv_owner(b: Built, inv: str) -> str:
+    for s, invs in b.defn["invokes"].items():
+        for i in invs:
+            if i["id"] == inv:
+                return s
+    return "?"
+
+
 def observe(interp, b: Built, loop: VLoop) -> dict:
     live = sorted([[o, k, d] for (o, k, d, t) in b.ctl.live_timers if not t.done()])
     p = rt.project(interp, b.ctx_keys)
     return {"config": p["config"], "hist": {k: v for k, v in p["hist"].items() if v}, "status": p["status"],
             "ctx": p["ctx"], "output": "NONE" if interp.output is None else str(interp.output),
             "queue": [getattr(e, "type", "?") for e in list(interp._event_queue._queue)], "now": round(loop.time() * 1000),
-            "busy": round(b.ctl.busy_until) if b.ctl.busy_until else 0, "timers": live}
+            "busy": round(b.ctl.busy_until) if b.ctl.busy_until else 0, "timers": live,
+            "svcs": sorted([[_inv_owner(b, ev[len("invoke."):]), ev[len("invoke."):]] for (_n, ev, f) in b.ctl.pending if not f.done()])}
 
 
-VISIBLE = ("act", "on_transition", "event")
+VISIBLE = ("act", "on_transition", "event", "svc_done", "svc_error", "error")
 
 
 def visible(log: list) -> list:
@@ -115,6 +125,7 @@ def run_sched(b: Built, steps: List[dict]) -> List[Tuple[dict, list]]:
     try:
         b.ctl.reset()
         b.ctl.live_timers = []
+        b.ctl.pending = []
         b.ctl.busy_until = 0
         rt.CURRENT["ctl"] = b.ctl
         interp = rt.attach(rt.TracedAsync(b.machine, b.ctl), b.ctl)
@@ -137,6 +148,16 @@ def run_sched(b: Built, steps: List[dict]) -> List[Tuple[dict, list]]:
                         loop.advance_to(nd)
                 elif op == "stop":
                     loop.run_coro(interp.stop())
+                elif op in ("resolve", "reject"):
+                    want = "invoke." + st["ev"]
+                    p = next((p for p in b.ctl.pending if p[1] == want and not p[2].done()), None)
+                    if p is None:
+                        b.ctl.emit("driver_error", "no pending service " + st["ev"])
+                    elif op == "resolve":
+                        p[2].set_result("ok:" + st["ev"])
+                    else:
+                        p[2].set_exception(RuntimeError("planned service failure " + st["ev"]))
+                    loop.run_idle()
             except Exception as ex:  # pragma: no cover - surfaced as a mismatch
                 b.ctl.emit("driver_error", type(ex).__name__)
             res.append((observe(interp, b, loop), b.ctl.take()))
@@ -157,7 +178,7 @@ def run_sched(b: Built, steps: List[dict]) -> List[Tuple[dict, list]]:
 
 
 def compare(e: SEdge, post: dict, log: list) -> Optional[str]:
-    for k in ("config", "status", "hist", "ctx", "output", "queue", "now", "busy", "timers"):
+    for k in ("config", "status", "hist", "ctx", "output", "queue", "now", "busy", "timers", "svcs"):
         if e.to[k] != post[k]:
             return f"state.{k}"
     if visible(e.out) != visible(log):
